@@ -215,6 +215,12 @@ func (c *Ctx) term(v ssa.Value, d int) string {
 		}
 		return "dyn(" + c.term(x.Call.Value, d+1) + ")(" + strings.Join(args, ", ") + ")"
 	case *ssa.Extract:
+		// a result of a new single-use helper: what the helper returns there, when all its returns agree
+		if call, ok := x.Tuple.(*ssa.Call); ok && d < 8 {
+			if rv := c.helperResult(call, x.Index); rv != nil {
+				return c.term(rv, d+1)
+			}
+		}
 		return c.term(x.Tuple, d+1) + "#" + fmt.Sprint(x.Index)
 	case *ssa.Field:
 		return c.term(x.X, d+1) + "." + fieldOfVal(x).Name()
@@ -744,4 +750,29 @@ func localCopyOf(al *ssa.Alloc) ssa.Value {
 		return nil
 	}
 	return src
+}
+
+// helperResult: result idx of a call of a new single-use helper, as a value of the helper's body, when every return of
+// the helper that does not hand back a zero value for it returns the same value there.
+func (c *Ctx) helperResult(call *ssa.Call, idx int) ssa.Value {
+	g := call.Call.StaticCallee()
+	if g == nil || !c.isNew(g) || c.soleCall(g) != ssa.CallInstruction(call) {
+		return nil
+	}
+	var rv ssa.Value
+	for _, b := range g.Blocks {
+		r, ok := b.Instrs[len(b.Instrs)-1].(*ssa.Return)
+		if !ok || idx >= len(r.Results) || (b != g.Blocks[0] && len(b.Preds) == 0) {
+			continue
+		}
+		v := resolveLocal(r.Results[idx])
+		if k, isK := v.(*ssa.Const); isK && (k.Value == nil || k.IsNil()) {
+			continue // zero value on a failing return
+		}
+		if rv != nil && rv != v {
+			return nil
+		}
+		rv = v
+	}
+	return rv
 }
